@@ -10,6 +10,29 @@ TRACE = "SuspClockTrace.tla"
 TCFG = "Trace_SuspClock.cfg"
 
 
+def _stats(path, into):
+    """Event statistics of a trace file (vacuity guard: how often each kind
+    of event / each way of ending was actually exercised)."""
+    seen_done = set()
+    trace = 0
+    for ln in vlib.read_lines(path):
+        try:
+            e = json.loads(ln)
+        except Exception:
+            continue
+        ev = e.get("ev")
+        into[ev] = into.get(ev, 0) + 1
+        if ev == "reset":
+            trace += 1
+            seen_done = set()
+        elif ev == "obs":
+            for r in e["objs"]:
+                if r["done"] and r["id"] not in seen_done:
+                    seen_done.add(r["id"])
+                    k = "ended:%s:%s" % (r["kind"], r["err"])
+                    into[k] = into.get(k, 0) + 1
+
+
 def _drive(ctx, binary, test, label, env, timeout=1200, tlc_timeout=1800):
     out = ctx.sub(label)
     rc, o = vlib.run_driver(binary, test, out, ctx.seed, env=env, timeout=timeout)
@@ -17,8 +40,9 @@ def _drive(ctx, binary, test, label, env, timeout=1200, tlc_timeout=1800):
         raise vlib.Infra("suspclock driver %s failed:\n%s" % (test, o[-3000:]))
     path = out + "/trace.ndjson"
     vlib.validate_traces(ctx, path, TRACE, TCFG, DEPS, label,
-                         classify=vlib.classify_for(ctx.prop), timeout=tlc_timeout)
+                         classify=vlib.classify_for(ctx.prop), timeout=tlc_timeout, max_failures=3)
     ctx.cov["samples"] += vlib.sample_lines(path, 4)
+    _stats(path, ctx.cov.setdefault("event_counts", {}))
     return out
 
 
@@ -26,20 +50,20 @@ def run(ctx):
     quick = ctx.quick()
     # 1. design check: the re-arm loop of the model satisfies the timing
     #    equations on every timeline of the bounded configuration(s)
-    vlib.design_check(ctx, "SuspClock.tla", "MC_SuspClock.cfg", [], timeout=900, workers=4)
+    vlib.design_check(ctx, "SuspClock.tla", "MC_SuspClock.cfg", [], timeout=1800, workers=2, heap="2g")
     if not quick:
-        vlib.design_check(ctx, "SuspClock.tla", "MC_SuspClock_two.cfg", [], timeout=2400, workers=4, heap="6g")
+        vlib.design_check(ctx, "SuspClock.tla", "MC_SuspClock_two.cfg", [], timeout=3600, workers=3, heap="4g")
 
     # 2. the real clock and wrappers, judged by the same equations
     binary = vlib.go_build_test(ctx, "suspclock")
     e = _drive(ctx, binary, "TestEnumerate", "enum",
-               {"VERIF_ENUM_PLAN": "3:1:2:7:2,4:2:3:5:3" if quick
+               {"VERIF_ENUM_PLAN": "3:1:2:6:2,4:2:3:4:3" if quick
                 else "3:1:2:9:2,4:2:3:6:3,2:1:0:6:3,5:3:1:6:3,1:1:4:5:3,6:2:3:8:2"})
     meta = json.load(open(e + "/meta.json"))
     w = _drive(ctx, binary, "TestWrappers", "wrappers", {})
     wmeta = json.load(open(w + "/meta.json"))
     _drive(ctx, binary, "TestRandom", "random",
-           {"VERIF_N": 150 if quick else 1500, "VERIF_STEPS": 45 if quick else 60})
+           {"VERIF_N": 100 if quick else 1500, "VERIF_STEPS": 45 if quick else 60})
 
     ctx.assumptions += [
         "base clock is punctual: a base timer is delivered at the instant it is due (events at one instant are unordered); late delivery by the OS is not modelled",
